@@ -6,9 +6,11 @@ import (
 	"fmt"
 	"go/token"
 	"go/types"
+	"sort"
 	"strings"
 
 	"golang.org/x/tools/go/ssa"
+	"golang.org/x/tools/go/ssa/ssautil"
 )
 
 func (vc *VC) safety(kind, goal, desc string) {
@@ -161,11 +163,16 @@ func (vc *VC) execInstrs(b *ssa.BasicBlock, st *State) {
 		case *ssa.Go:
 			vc.fail("go statement")
 		case *ssa.Select:
-			vc.fail("select statement")
+			vc.execSelect(x, st)
 		case *ssa.Send:
-			vc.fail("channel send")
+			// single-goroutine channel abstraction: the message is not tracked (receivers get arbitrary values
+			// that satisfy the channel's invariant, which every send is obliged to establish)
+			vc.chanInvSend(x.Chan, x.X, st)
+			vc.blockingPoint(st)
 		case *ssa.MakeChan:
-			vc.fail("make chan")
+			c := vc.fresh("chan", vc.d.sortOf(x.Type()))
+			vc.assume(fmt.Sprintf("(not (= %s %s))", c, vc.d.zero(x.Type())))
+			vc.setVal(x, c)
 		case *ssa.If:
 			c := vc.val(x.Cond)
 			vc.edgeCond[[2]*ssa.BasicBlock{b, b.Succs[0]}] = c
@@ -332,7 +339,17 @@ func (vc *VC) execUnOp(x *ssa.UnOp, st *State) {
 			vc.setVal(x, fmt.Sprintf("(- %s %s)", smtInt(r.hi), vc.val(x.X)))
 		}
 	case token.ARROW:
-		vc.fail("channel receive")
+		// single-goroutine channel abstraction: a received value is arbitrary (within its type)
+		vc.blockingPoint(st)
+		et := x.X.Type().Underlying().(*types.Chan).Elem()
+		v := vc.fresh("recv", vc.d.sortOf(et))
+		vc.assumeRange(v, et, st, "")
+		vc.chanInvRecv(x.X, v, et, st)
+		if x.CommaOk {
+			vc.tuples[x] = []string{v, vc.fresh("recvok", "Bool")}
+		} else {
+			vc.setVal(x, v)
+		}
 	default:
 		vc.fail("unop %s", x.Op)
 	}
@@ -1072,4 +1089,125 @@ func (vc *VC) strRoundTrip() {
 	}
 	vc.d.declFun("str.rt!axiom", "")
 	vc.d.axioms = append(vc.d.axioms, "(assert (forall ((c!a (Array Int Int)) (o!a Int) (l!a Int) (i!a Int)) (! (=> (and (<= 0 i!a) (< i!a l!a)) (= (select (bytes.of.str (str.of.bytes c!a o!a l!a)) i!a) (select c!a (+ o!a i!a)))) :pattern ((select (bytes.of.str (str.of.bytes c!a o!a l!a)) i!a)))))")
+}
+
+// blockingPoint models what other goroutines may do while this one waits on a channel operation: the locations
+// named in the function's 'interference' clause get arbitrary values; everything else is taken to be confined to
+// this goroutine (a stated assumption of every claim that covers a function with channel operations).
+func (vc *VC) blockingPoint(st *State) {
+	vc.noteTrusted("channel operations in " + vc.fn.Name() + " are abstracted: sends are not tracked, received values and the chosen select case are arbitrary; state not named in the function's 'interference' clause is taken to be confined to the executing goroutine")
+	if vc.spec == nil || len(vc.spec.Interference) == 0 {
+		return
+	}
+	env := &Env{vc: vc, cur: st, old: vc.entry, vars: map[string]SVal{}, block: vc.curBlock}
+	var mls []modLoc
+	for _, m := range vc.spec.Interference {
+		mls = append(mls, env.evalLocs(m)...)
+	}
+	env.flushSide(vc.reach[vc.curBlock])
+	for _, ml := range mls {
+		vc.havoc(st, ml)
+	}
+}
+
+// execSelect: single-goroutine channel abstraction of a select statement. Any of the cases (or, if the select is
+// non-blocking, the default) may be taken; received values are arbitrary within their types; sends are not tracked.
+func (vc *VC) execSelect(x *ssa.Select, st *State) {
+	vc.blockingPoint(st)
+	idx := vc.fresh("select.idx", "Int")
+	lo := "0"
+	if !x.Blocking {
+		lo = "(- 1)"
+	}
+	vc.assume(fmt.Sprintf("(and (<= %s %s) (< %s %d))", lo, idx, idx, len(x.States)))
+	tup := []string{idx, vc.fresh("select.ok", "Bool")}
+	for _, s := range x.States {
+		if s.Dir == types.RecvOnly {
+			et := s.Chan.Type().Underlying().(*types.Chan).Elem()
+			v := vc.fresh("select.recv", vc.d.sortOf(et))
+			vc.assumeRange(v, et, st, "")
+			vc.chanInvRecv(s.Chan, v, et, st)
+			tup = append(tup, v)
+		} else {
+			vc.chanInvSend(s.Chan, s.Send, st)
+		}
+	}
+	vc.tuples[x] = tup
+}
+
+// chanInvOf finds the invariant of the channel held in a struct field: the channel value must be a direct load of
+// that field (t = &x.f; c = *t), which is how go/ssa renders x.f <- v and <-x.f.
+func (vc *VC) chanInvOf(ch ssa.Value) *InvDef {
+	u, ok := ch.(*ssa.UnOp)
+	if !ok || u.Op != token.MUL {
+		return nil
+	}
+	fa, ok := u.X.(*ssa.FieldAddr)
+	if !ok {
+		return nil
+	}
+	pt, ok := fa.X.Type().Underlying().(*types.Pointer)
+	if !ok {
+		return nil
+	}
+	named, ok := pt.Elem().(*types.Named)
+	if !ok || named.Obj().Pkg() == nil {
+		return nil
+	}
+	return vc.w.chanInvs[named.Obj().Pkg().Path()+"."+named.Obj().Name()+"."+fieldName(fa)]
+}
+
+func (vc *VC) chanInvTerm(ci *InvDef, v string, et types.Type, st *State) (string, *Env) {
+	env := &Env{vc: vc, cur: st, old: vc.entry, vars: map[string]SVal{}, block: vc.curBlock}
+	if tp, ok := vc.w.tpkgs[ci.Pkg]; ok && tp.Types != nil {
+		env.pkg = tp.Types
+	}
+	r := env.withVars(map[string]SVal{ci.Var: {t: v, typ: et, sort: vc.d.sortOf(et)}}, func() SVal { return env.eval(ci.Body) })
+	return r.t, env
+}
+
+func (vc *VC) chanInvRecv(ch ssa.Value, v string, et types.Type, st *State) {
+	if ci := vc.chanInvOf(ch); ci != nil {
+		// the invariant may be assumed only if every function of the package that sends on this channel is
+		// checked in this claim (each send carries the obligation chan.send.inv)
+		var missing []string
+		for fn := range ssautil.AllFunctions(vc.w.prog) {
+			if fn.Pkg != vc.fn.Pkg {
+				continue
+			}
+			sends := false
+			for _, b := range fn.Blocks {
+				for _, in := range b.Instrs {
+					switch y := in.(type) {
+					case *ssa.Send:
+						sends = sends || vc.chanInvOf(y.Chan) == ci
+					case *ssa.Select:
+						for _, s := range y.States {
+							sends = sends || (s.Dir == types.SendOnly && vc.chanInvOf(s.Chan) == ci)
+						}
+					}
+				}
+			}
+			if sends && !vc.w.claimed[funcKey(fn)] {
+				missing = append(missing, fn.RelString(fn.Pkg.Pkg))
+			}
+		}
+		if len(missing) > 0 {
+			sort.Strings(missing)
+			vc.fail("channel invariant of %s assumed at a receive, but these senders are not checked in this claim: %s", ci.Type, strings.Join(missing, ", "))
+		}
+		f, env := vc.chanInvTerm(ci, v, et, st)
+		env.flushSide(vc.reach[vc.curBlock])
+		vc.assume(f)
+	}
+}
+
+func (vc *VC) chanInvSend(ch, x ssa.Value, st *State) {
+	if ci := vc.chanInvOf(ch); ci != nil {
+		et := ch.Type().Underlying().(*types.Chan).Elem()
+		f, env := vc.chanInvTerm(ci, vc.val(x), et, st)
+		reach := vc.reach[vc.curBlock]
+		env.flushSide(reach)
+		vc.oblige("chan.send.inv", "", reach, f, "value sent on "+ci.Type+" satisfies the channel invariant")
+	}
 }
